@@ -26,6 +26,7 @@ import (
 	"github.com/tikv/client-go/v2/config"
 	"github.com/tikv/client-go/v2/internal/logutil"
 	"github.com/tikv/client-go/v2/internal/resourcecontrol"
+	"github.com/tikv/client-go/v2/internal/simhook"
 	"github.com/tikv/client-go/v2/tikvrpc"
 	"github.com/tikv/client-go/v2/util"
 	"github.com/tikv/client-go/v2/util/async"
@@ -150,6 +151,7 @@ func (c *RPCClient) SendRequestAsync(ctx context.Context, addr string, req *tikv
 	if val, err := util.EvalFailpoint("mockBatchCommandsChannelFullOnAsyncSend"); err == nil {
 		mockBatchCommandsChannelFullOnAsyncSend(ctx, batchConn, cb, val)
 	}
+	simhook.Yield("batch.async.enqueue")
 	select {
 	case batchConn.batchCommandsCh <- entry:
 		// will be fulfilled in batch send/recv loop.
